@@ -23,12 +23,16 @@ func newCountedLock() *countedLock {
 func (m *countedLock) Lock(ctx context.Context) bool {
 	// If the context is already cancelled don't even try to lock.
 	if ctx.Err() != nil {
+		verifPoint("cl.ctxEnded", "")
 		return false
 	}
+	verifPoint("cl.ctxChecked", "")
 	select {
 	case m.ch <- struct{}{}:
+		verifPoint("cl.acquired", "")
 		return true
 	case <-ctx.Done():
+		verifPoint("cl.gaveUp", "")
 		return false
 	}
 }
@@ -36,6 +40,7 @@ func (m *countedLock) Lock(ctx context.Context) bool {
 func (m *countedLock) Unlock() {
 	select {
 	case <-m.ch:
+		verifPoint("cl.released", "")
 		return
 	default:
 		panic("BUG: lock not held")
